@@ -100,7 +100,7 @@ def main():
                 continue
             shrunk = False
             fields = getattr(mod, 'SHRINK_FIELDS', None)
-            if fields or hasattr(mod, 'shrink'):
+            if (fields or hasattr(mod, 'shrink')) and not os.environ.get('VERIF_NOSHRINK'):
                 def still(c, _sig=sig):
                     return any(f.sig == _sig for f in mod.rejudge(c))
                 try:
